@@ -190,6 +190,9 @@ def _analyse(t):
         if not cands:
             continue
         rec = min(cands, key=lambda r: r.source_end_offset - r.source_start_offset)
+        # a block statement can have two records (the collector's own and the one finalize synthesises for the block's
+        # start): the statement's code is the union of the records with that source range
+        same = [r for r in cands if (r.source_start_offset, r.source_end_offset) == (rec.source_start_offset, rec.source_end_offset)]
         new = rng.choice([d for d in '3456789' if d != src[pos]])
         st2 = real.try_compile(src[:pos] + new + src[pos + 1:], o, True)
         if st2[0] != 'ok':
@@ -200,7 +203,7 @@ def _analyse(t):
             continue
         nmut += 1
         diffs = [i for i in range(len(code1)) if code1[i] != code2[i]]
-        outside = [i for i in diffs if not (rec.start_offset <= i < rec.end_offset)]
+        outside = [i for i in diffs if not any(r.start_offset <= i < r.end_offset for r in same)]
         if outside and len(out['problems']) < 6:
             out['problems'].append(('literal-change-alters-code-outside-the-record-of-its-statement', type(rec.node).__name__,
                                     rec.source_start_line, (rec.start_offset, rec.end_offset), outside[:3],
